@@ -1,7 +1,7 @@
-(* C06 -- statements only; see DESIGN.md section 6 C06.  Theorems are added as the proofs land;
-   the witnesses below are evaluated in the kernel on the whole-parser model. *)
+(* C06 -- container prefixing changes neither interpretation nor source mapping of content.  Statements only;
+   proofs in proofs/QuoteProofs.v; see DESIGN.md section 6 C06. *)
 From Coq Require Import String.
-From MdIt Require Import Prims Tables Tree Render Core Dump Dispatch.
+From MdIt Require Import Prims Tables Tree Render Block Core Dump Dispatch QuoteProofs.
 Local Open Scope string_scope.
 Local Open Scope list_scope.
 Local Open Scope N_scope.
@@ -22,3 +22,27 @@ Example C06_witness_quote :
 - b" ++ bs "</blockquote>
 ".
 Proof. vm_compute. reflexivity. Qed.
+
+(* FULL STATEMENT (not proved end to end; decided on every run by the metamorphic oracle -- HTML wrapper
+   and range shift under '> ' prefixing, list-item wrapper under indentation -- and the correspondence).
+
+   PROVED PART (model): the mechanism the property rests on.  For source lines "> " ++ T_i with T_i tab-free,
+   the quote rule's scan accepts every line and hands its nested tokenizer, for each line, the line record of
+   T_i itself with the text prefixed by the two bytes and the content offset moved by exactly 2 -- same
+   indentation, same emptiness -- and leaves all earlier lines alone.  What is NOT proved is the second half:
+   that the block and inline rules are insensitive to such a shift of (text, offset) except for adding 2 to
+   every recorded position. *)
+
+Theorem C06_quote_lines_are_shifted_lines : forall cfg st0, b_blk st0 = 0 -> forall texts start lines n le,
+  (forall i T, nth_error texts i = Some T -> tab_free T = true /\ nth_error lines (start + i) = Some (qline T)) ->
+  b_max st0 = (start + length texts)%nat -> (length texts <= n)%nat ->
+  exists lines', quote_scan cfg st0 n lines start le = inr (lines', (start + length texts)%nat) /\
+    (forall i T, nth_error texts i = Some T -> nth_error lines' (start + i) = Some (shifted T)) /\
+    (forall j, (j < start)%nat -> nth_error lines' j = nth_error lines j).
+Proof. exact quote_scan_rewrites. Qed.
+
+Example C06_nonvacuous :
+  shifted (bs "  - a") = LRec (bs ">   - a") 4 2%Z /\ mk_line (bs "  - a") = LRec (bs "  - a") 2 2%Z.
+Proof. vm_compute. split; reflexivity. Qed.
+
+Print Assumptions C06_quote_lines_are_shifted_lines.
